@@ -620,4 +620,90 @@ theorem delta_cds_keys_behind_state_witness : ¬ DeltaCdsSyncsWhateverTheKeys :=
   revert hs
   decide
 
+/-! ## Review round 3: the order in which a client applies `resources` and `removed_resources`
+
+`applyDelta` lets a resource of the response win over a removal of the same name in the same response; the Go
+harness clients (and harness/e2e) apply `resources` first and `removed_resources` last, so there the removal wins.
+The two readings agree whenever a response never names one resource in both lists - which is proved below for
+every response `pushDeltaXds` builds from a generator that is not delta-aware, for the model's delta-aware CDS
+generator, and (WdsTheorems.lean) for the real Workload and Authorization generators. -/
+
+/-- The client of the Go harnesses: `removed_resources` are applied last. -/
+def applyDeltaRemovedLast (h : Held) (r : DeltaResp) : Held :=
+  (r.resources ++ h.filter (fun x => !(names r.resources).contains x.1)).filter (fun x => !r.removed.contains x.1)
+
+theorem get_applyDeltaRemovedLast (h : Held) (r : DeltaResp) (n : String) :
+    get (applyDeltaRemovedLast h r) n =
+      if r.removed.contains n then none else
+        match get r.resources n with
+        | some v => some v
+        | none => get h n := by
+  unfold applyDeltaRemovedLast
+  rw [get_filter _ (fun m => !r.removed.contains m) n]
+  cases hc : r.removed.contains n
+  · simp only [Bool.not_false, if_true, Bool.false_eq_true, if_false]
+    rw [get_append]
+    cases hg : get r.resources n with
+    | some v => rfl
+    | none =>
+      simp only []
+      rw [get_filter h (fun m => !(names r.resources).contains m) n]
+      have hnot : n ∉ names r.resources := by
+        intro hm
+        have := (get_isSome_iff_mem_names r.resources n).mpr hm
+        simp [hg] at this
+      simp [hnot]
+  · simp
+
+/-- If no name is in both lists the two orders give the same client state. -/
+theorem applyDelta_order_irrelevant (h : Held) (r : DeltaResp)
+    (hdisj : ∀ n ∈ names r.resources, n ∉ r.removed) (n : String) :
+    get (applyDelta h r) n = get (applyDeltaRemovedLast h r) n := by
+  rw [get_applyDelta, get_applyDeltaRemovedLast]
+  cases hg : get r.resources n with
+  | some v =>
+    have hm : n ∈ names r.resources := (get_isSome_iff_mem_names _ _).mp (by simp [hg])
+    simp [hdisj n hm]
+  | none =>
+    cases r.removed.contains n <;> simp
+
+/-- Generators that are not delta-aware: `removed = watched - generated` never names a generated resource. -/
+theorem removed_disjoint_plain (t : Ty) (wn : List String) (o : GenOut) (resp : DeltaResp) (nn : Option (List String))
+    (hplain : o.usedDelta = false) (hinc : o.incremental = false)
+    (h : pushDelta t wn o = some (resp, nn)) : ∀ n ∈ names resp.resources, n ∉ resp.removed := by
+  intro n hn hr
+  have hres := resources_exact t wn o resp nn h
+  cases hnr : neverRemove t with
+  | false =>
+    have := (removed_exact t wn o resp nn hplain hinc hnr h n).mp hr
+    rw [hres] at hn
+    exact this.2 hn
+  | true =>
+    unfold pushDelta at h
+    split at h
+    · cases h
+    · injection h with h; injection h with h1 _
+      rw [← h1] at hr
+      simp [hnr] at hr
+
+/-- The model's delta-aware CDS generator: what it deletes does not exist, what it sends does. -/
+theorem removed_disjoint_delta_cds (world : World) (changed wn : List String) (resp : DeltaResp) (nn : Option (List String))
+    (h : pushDelta .cds wn (deltaCdsGen world changed wn) = some (resp, nn)) :
+    ∀ n ∈ names resp.resources, n ∉ resp.removed := by
+  intro n hn hr
+  have hpd : pushDelta .cds wn (deltaCdsGen world changed wn) =
+      some ({ resources := (deltaCdsGen world changed wn).res, removed := (deltaCdsGen world changed wn).deleted },
+            newNames .cds wn (deltaCdsGen world changed wn)) := by
+    simp [pushDelta, GenOut.nilOut, neverRemove, removedRaw, deltaCdsGen]
+  rw [hpd] at h
+  injection h with h; injection h with h1 _
+  rw [← h1] at hn hr
+  simp only [deltaCdsGen, List.mem_filter, Bool.and_eq_true, Option.isNone_iff_eq_none] at hr
+  have hs : (get (deltaCdsGen world changed wn).res n).isSome := (get_isSome_iff_mem_names _ _).mpr hn
+  simp only [deltaCdsGen] at hs
+  rw [get_filterMap_keys] at hs
+  split at hs
+  · rw [hr.2.1] at hs; cases hs
+  · cases hs
+
 end IstioModel.C03
